@@ -230,6 +230,7 @@ func verifBlackBox(capTok, evTok string) (result string) {
 		time.Sleep(10 * time.Millisecond)
 	}
 
+	patience := 3 * time.Second
 	unused := map[turbotunnel.ClientID][]net.Conn{} // carriers no session has used yet, oldest first
 	var out []string
 	for _, ev := range wire.List(evTok) {
@@ -259,10 +260,14 @@ func verifBlackBox(capTok, evTok string) (result string) {
 			if capacity == 0 || (capacity == 1 && before.entries == same) {
 				time.Sleep(30 * time.Millisecond)
 			} else {
-				deadline := time.Now().Add(5 * time.Second)
+				// If no change shows up the scenario goes on (the accepted connections will
+				// then carry the wrong address, which is what gets reported); later carriers of
+				// the same scenario wait only briefly.
+				deadline := time.Now().Add(patience)
 				for verifSnapshot() == before {
 					if time.Now().After(deadline) {
-						return "!set-not-observed"
+						patience = 100 * time.Millisecond
+						break
 					}
 					time.Sleep(time.Millisecond)
 				}
